@@ -1042,9 +1042,9 @@ fn drive_pairs(sink: &mut Sink, rng: &mut Rng, n: usize, corpus: &[String]) {
 /// 0..=40 qualifiers; parsed and built.
 fn drive_lengths(sink: &mut Sink, _rng: &mut Rng, n: usize) {
     let mut lens: Vec<usize> = (0..=48).collect();
-    lens.extend([63, 64, 65, 127, 128, 129]);
+    lens.extend([63, 64, 65, 127, 128, 129, 255, 256, 257]);
     if n >= 2 {
-        lens.extend([255, 256, 257, 1023, 1024]);
+        lens.extend([511, 512, 513, 1023, 1024, 1025, 4095, 4096, 4097]);
     }
     for &l in &lens {
         for last in ["a", "A", " ", "é", "%41", "%2F", "/%2e%2E"] {
@@ -1105,8 +1105,14 @@ fn drive_lengths(sink: &mut Sink, _rng: &mut Rng, n: usize) {
             }
         }
     }
-    // 0..=40 namespace / subpath segments (and as many again written as empty or dot pieces)
-    for n in 0..=40usize {
+    // 0..=40 namespace / subpath segments (and as many again written as empty or dot pieces), then around 64 / 128 / 256
+    let mut counts: Vec<usize> = (0..=40).collect();
+    counts.extend([63, 64, 65, 127, 128, 129]);
+    if n >= 2 {
+        counts.extend([255, 256, 257]);
+    }
+    let counts2 = counts.clone();
+    for n in counts {
         let segs: Vec<String> = (0..n).map(|i| format!("s{}", i)).collect();
         let ns = segs.join("/");
         let noisy = segs.iter().map(|x| format!("{}//./", x)).collect::<String>();
@@ -1115,12 +1121,12 @@ fn drive_lengths(sink: &mut Sink, _rng: &mut Rng, n: usize) {
         parse_all(sink, &format!("pkg:t/n#{}", noisy));
         parse_all(sink, &format!("pkg:golang/{}/n@v1#{}", noisy.replace("./", ""), noisy));
     }
-    // 0..=40 qualifiers, in descending key order in the input
-    for n in 0..=40usize {
-        let quals: Vec<String> = (0..n).rev().map(|i| format!("k{:02}=v{}", i, i)).collect();
+    // as many qualifiers, in descending key order in the input
+    for n in counts2 {
+        let quals: Vec<String> = (0..n).rev().map(|i| format!("k{:03}=v{}", i, i)).collect();
         let s = if n == 0 { "pkg:t/n".to_owned() } else { format!("pkg:t/n?{}", quals.join("&")) };
         parse_all(sink, &s);
-        let algs: Vec<String> = (0..n).rev().map(|i| format!("A{:02}:0{}", i, i % 10)).collect();
+        let algs: Vec<String> = (0..n).rev().map(|i| format!("A{:03}:0{}", i, i % 10)).collect();
         if n > 0 {
             parse_all(sink, &format!("pkg:t/n?checksum={}", algs.join(",")));
         }
